@@ -120,3 +120,87 @@ Theorem C05_settings_default_fraction :
     = Settings.obind (Settings.int_of_frac fr n) (fun z => Settings.Done (Settings.dset p "n_burn_in_iter"%string (Settings.JInt z))).
 Proof. exact SettingsProofs.default_burn_in_fraction. Qed.
 Print Assumptions C05_settings_default_fraction.
+
+(* ---------------------------------------------------------------------- the schedule ON THE RUN: the control flow of a fit
+   regenerated from the source (coq/gen/GenC11.v, harness/translate/c11_run.py; semantics Api/RunProg.v) composed with the rules
+   regenerated from `_maximization_step` (coq/gen/GenC05.v).  Model Compose/ScheduleOnRun.v, proofs ScheduleOnRunProofs.v,
+   the statements over the generated values ScheduleOnRunTie.v. *)
+From Leaspy Require Import Api.RunProg Compose.ScheduleOnRun Compose.ScheduleOnRunProofs Compose.ScheduleOnRunTie.
+From LeaspyGen Require Import GenC11.
+Local Open Scope nat_scope.
+
+(** Decided on the generated program on every run: it is `seeds; init; loop(body); fin` (C11) and one iteration is
+    `quiet; sampler loop; quiet; ASuffStats; AMStep; ATemperature; quiet`, nothing else mentioning these four events. *)
+Theorem C05_src_shape : well_shaped fit_prog = true /\ sched_shaped fit_prog = true.
+Proof. split; [exact src_well_shaped | exact src_sched_shaped]. Qed.
+Print Assumptions C05_src_shape.
+
+(** For every configuration (number of iterations, sampling orders, flags, logging): the counter takes the values
+    1..n_iter in order; in each iteration every sampler event, then exactly one sufficient-statistics event, exactly one
+    maximisation, then the temperature update — all at that counter value; no such event anywhere else in the run. *)
+Theorem C05_src_run_events : forall e : env,
+  filter is_key (unfold e fit_prog)
+  = flat_map (fun i => map (fun k => IAlg ASample i k) (e_order e i)
+                       ++ [IAlg ASuffStats i 0; IAlg AMStep i 0; IAlg ATemperature i 0]) (seq 1 (e_niter e)).
+Proof. exact src_run_key_events. Qed.
+Print Assumptions C05_src_run_events.
+
+(** The log of the maximisations of the run, computed with the regenerated rules, is the documented schedule. *)
+Theorem C05_src_run_log : forall (e : env) (nb : Z) (p : Q) (s : nat -> R),
+  src_log nb p s (unfold e fit_prog)
+  = Some (map (fun k => MRec k (stat nb (Q2R p) s k) (memoryless (Z.of_nat k) nb) (burn_flag (Z.of_nat k) nb)) (seq 1 (e_niter e))).
+Proof. exact src_run_log. Qed.
+Print Assumptions C05_src_run_log.
+
+(** End to end, no "observed on real fits" clause: for the run program regenerated from today's source, every
+    configuration, any n_burn_in, power and sequence of computed statistics, the k-th maximisation (k <= n_iter) runs at
+    counter value k and is handed S_k: s_k while k <= nb + 1, (1 - e_k) S_(k-1) + e_k s_k with e_k = (k - nb)^(-p) from
+    k = nb + 2 on, with burn_in = (k <= nb). *)
+Theorem C05_src_run_schedule : forall (e : env) (nb : Z) (p : Q) (s : nat -> R),
+  exists log,
+    src_log nb p s (unfold e fit_prog) = Some log /\ List.length log = e_niter e /\
+    forall k, 1 <= k <= e_niter e ->
+      exists r, nth_error log (k - 1) = Some r
+        /\ m_iter r = k
+        /\ m_stat r = stat nb (Q2R p) s k
+        /\ ((Z.of_nat k <= nb + 1)%Z -> m_stat r = s k /\ m_memoryless r = true)
+        /\ ((nb + 2 <= Z.of_nat k)%Z ->
+              m_memoryless r = false /\
+              (2 <= k ->
+               exists r', nth_error log (k - 2) = Some r' /\
+                 m_stat r = ((1 - Rpower (IZR (Z.of_nat k - nb)) (- Q2R p)) * m_stat r'
+                             + Rpower (IZR (Z.of_nat k - nb)) (- Q2R p) * s k)%R))
+        /\ (m_flag r = true <-> (Z.of_nat k <= nb)%Z).
+Proof. exact src_run_schedule. Qed.
+Print Assumptions C05_src_run_schedule.
+
+(** Non-vacuity: a 4-iteration run with logging on (47 named events), burn-in 1, power 0.8: counters 1 2 3 4, branches
+    M M C C, flags T F F F, and the third maximisation is handed (1 - 2^-0.8) * 2 + 2^-0.8 * 3. *)
+Theorem C05_src_run_schedule_example :
+  exists log, src_log 1 (4 # 5) INR (unfold ScheduleDemo.e4 fit_prog) = Some log
+    /\ map m_iter log = [1; 2; 3; 4]
+    /\ map m_memoryless log = [true; true; false; false]
+    /\ map m_flag log = [true; false; false; false]
+    /\ (exists r2 r3, nth_error log 1 = Some r2 /\ nth_error log 2 = Some r3 /\ m_stat r2 = INR 2
+          /\ m_stat r3 = ((1 - Rpower (IZR (3 - 1)) (- Q2R (4 # 5))) * INR 2 + Rpower (IZR (3 - 1)) (- Q2R (4 # 5)) * INR 3)%R).
+Proof. exact ScheduleDemo.schedule_of_a_run. Qed.
+Print Assumptions C05_src_run_schedule_example.
+
+(** The executable projection the recorded fits are compared with (`check_msteps`, T2) is the projection of the same machine:
+    counter, branch and flag of every logged maximisation. *)
+Theorem C05_src_log_observed : forall (nb : Z) (p : Q) (s : nat -> R) (l : list item) (log : list mrec),
+  src_log nb p s l = Some log ->
+  map (fun r => (m_iter r, m_memoryless r, m_flag r)) log = mstep_obs nb l.
+Proof. exact src_log_obs. Qed.
+Print Assumptions C05_src_log_observed.
+
+(** The unrolled form on the run: with m = nb + 1 the first iteration kept, the (m+d)-th maximisation of the run program is
+    handed a convex combination (weights >= 0, sum 1) of the statistics computed at iterations m .. m+d. *)
+Theorem C05_src_run_unrolled : forall (e : env) (nb : Z) (p : Q) (s : nat -> R) (m d : nat),
+  Z.of_nat m = (nb + 1)%Z -> 1 <= m -> m + d <= e_niter e -> (0 < Q2R p)%R ->
+  exists log r,
+    src_log nb p s (unfold e fit_prog) = Some log /\ nth_error log (m + d - 1) = Some r /\ m_iter r = m + d
+    /\ m_stat r = dot (weights nb (Q2R p) m d) (map s (seq m (S d)))
+    /\ sumR (weights nb (Q2R p) m d) = 1%R /\ Forall (fun w => (0 <= w)%R) (weights nb (Q2R p) m d).
+Proof. exact src_run_unrolled. Qed.
+Print Assumptions C05_src_run_unrolled.
